@@ -689,7 +689,17 @@ macro_rules! uint_ops {
                 let xs = parse_hex_list(a[2].strip_prefix("b:").unwrap());
                 macro_rules! one { ($u:ty) => {{
                     let s: Vec<$u> = xs.iter().map(|x| *x as $u).collect();
-                    match <$T>::try_from(&s[..]) { Ok(v) => format!("ok {}", v.dump()), Err(e) => format!("err {:?}", e) }
+                    let base = match <$T>::try_from(&s[..]) { Ok(v) => format!("ok {}", v.dump()), Err(e) => format!("err {:?}", e) };
+                    // the same elements at every other alignment of the slice's start address (1..=7 elements into a buffer)
+                    for off in 1..=7usize {
+                        let mut buf: Vec<$u> = vec![0x5a as $u; off];
+                        buf.extend_from_slice(&s);
+                        let r = match <$T>::try_from(&buf[off..]) { Ok(v) => format!("ok {}", v.dump()), Err(e) => format!("err {:?}", e) };
+                        if r != base {
+                            return r;
+                        }
+                    }
+                    base
                 }}}
                 match w { 8 => one!(u8), 16 => one!(u16), 32 => one!(u32), 64 => one!(u64), 128 => one!(u128), _ => panic!("width") }
             }
@@ -829,6 +839,24 @@ fn exec(t: &[&str]) -> String {
             }
         }
         "eqhash" => for_types!(d1!(ty_tag(a[0]), eqhash, (a))),
+        "hugecounts" => {
+            // a heap vector longer than 2^32 bits with a few set bits: the counts, and hash / equality against the short equal value
+            let n: usize = a[0].parse().unwrap();
+            let pos: Vec<usize> = if a[1] == "-" { vec![] } else { a[1].split(',').map(|x| x.parse().unwrap()).collect() };
+            let mut v = Bvd::zeros(n);
+            for p in &pos { v.set(*p, Bit::One); }
+            let top = pos.iter().max().map_or(0, |m| m + 1);
+            let mut short = Bvd::zeros(top);
+            for p in &pos { short.set(*p, Bit::One); }
+            // the recording hasher keeps every word: only hash when the value is short
+            let same_hash = if top <= 1 << 20 {
+                let (mut h1, mut h2) = (RecHasher::default(), RecHasher::default());
+                v.hash(&mut h1);
+                short.hash(&mut h2);
+                h1.0 == h2.0
+            } else { true };
+            format!("ok n:{} n:{} n:{} {} {} {}", v.leading_zeros(), v.trailing_zeros(), v.significant_bits(), tok_bool(v.is_zero()), tok_bool(v == short), tok_bool(same_hash))
+        }
         "cmpall" => {
             let (lt, rt) = (ty_tag(a[0]), ty_tag(a[1]));
             for_types!(d1!(lt, cmp_l1, (rt, a)))
